@@ -1,8 +1,11 @@
 SPECIFICATION Spec
 CONSTANTS
+  PayloadIds = 2
+  IndepDepth = 0
   PairMode = "std"
-  Universe <- UniverseIndepQuick
+  Universe <- EmptyUniverse
   FormatsUsed <- AllFormats
   Origin = "indep"
 INVARIANT InvWriterModel
+INVARIANT InvMBTilesPlan
 CHECK_DEADLOCK FALSE
